@@ -30,7 +30,7 @@ COMPONENTS = ['cli']
 THEOREMS = ['C12_source_constants', 'C12_cli_exit_in_012', 'C12_usage_is_2', 'C12_stdout_only_on_success',
             'C12_write_failure_is_exit1', 'C12_healthy_run_succeeds', 'C12_string_mode_is_value', 'C12_yaml_stream_shape',
             'C12_multi_files_are_visible_fields', 'C12_no_trailing_newline_only_last',
-            'C12_tla_bind_by_name', 'C12_tla_bind_permutation', 'C12_ext_code_lazy', 'C12_input_failure_is_exit1', 'C12_tla_misuse_never_succeeds',
+            'C12_tla_bind_by_name', 'C12_tla_bind_permutation', 'C12_ext_code_lazy', 'C12_ext_bindings_exact', 'C12_input_failure_is_exit1', 'C12_tla_misuse_never_succeeds',
             'C12_var_split_at_first_eq', 'C12_no_panic', 'C12_needs_flush', 'C12_nonvacuous']
 ALLOWED_AXIOMS = set()
 
